@@ -27,11 +27,12 @@ def plan(tier):
     if tier == "quick":
         return {"ncases": 320, "min_nontrivial": 80, "case_time_limit": 120,
                 "required_classes": ["one-term", "one-site", "offset", "complex-factor", "multi-dof-site", "swap-walk",
-                                     "duplicate-terms", "interleaved-same-site"],
+                                     "duplicate-terms", "interleaved-same-site", "identical-duplicate-term", "units:tiny", "units:huge"],
                 "required_counters": {"oracle": 600, "swaps": 100}}
     return {"ncases": 5000, "min_nontrivial": 1500, "case_time_limit": 300,
             "required_classes": ["one-term", "one-site", "offset", "complex-factor", "multi-dof-site", "swap-walk",
-                                 "duplicate-terms", "interleaved-same-site", "real-factor-complex-matrix"],
+                                 "duplicate-terms", "interleaved-same-site", "real-factor-complex-matrix", "identical-duplicate-term",
+                                 "units:tiny", "units:huge"],
             "required_counters": {"oracle": 10000, "swaps": 3000}}
 
 
@@ -115,10 +116,21 @@ def build_case(ctx):
         t = terms[int(rng.integers(0, len(terms)))]
         terms.insert(int(rng.integers(0, len(terms) + 1)), Op(t.symbol, t.dofs, 0.0, qn=t.qn_list))
         ctx.cls("zero-factor-term")
+    if rng.random() < 0.15 and terms:
+        # the same term (symbols, DoFs AND factor) listed twice, e.g. a double loop over neighbours
+        t = terms[int(rng.integers(0, len(terms)))]
+        terms.insert(int(rng.integers(0, len(terms) + 1)), Op(t.symbol, t.dofs, t.factor, qn=t.qn_list))
+        ctx.cls("identical-duplicate-term")
     offset = 0.0
     if rng.random() < 0.3:
         offset = float(rng.choice([1.0, -2.5, 0.013, 37.0]))
         ctx.cls("offset")
+    if rng.random() < 0.15:
+        # other units: every coefficient (and the offset) tiny or huge in absolute value
+        g = float(rng.choice([1e-10, 1e-7, 1e9]))
+        terms = [Op(t.symbol, t.dofs, t.factor * g, qn=t.qn_list) for t in terms]
+        offset *= g
+        ctx.cls("units:tiny" if g < 1 else "units:huge")
     return gm, terms, offset
 
 
